@@ -3,7 +3,7 @@
    The model is coq/Geom/GeomModel.v (what Geometry derives from a description), coq/Geom/CondFile.v (conductivity
    file).  Geometry enters through oracles handed in as data (solid-angle sign per interface, insideness per probe
    and interface) and through explicit hypotheses on them (monotone chain). *)
-From OM Require Import Base.Lists Base.Ops Geom.MeshTopo Geom.GeomModel Geom.GeomProofs Geom.OldOrdering Geom.Laminar Geom.CondFile Geom.CondProofs Geom.SaveGeom.
+From OM Require Import Base.Lists Base.Ops Geom.MeshTopo Geom.GeomModel Geom.GeomProofs Geom.OldOrdering Geom.Laminar Geom.CondFile Geom.CondProofs Geom.SaveGeom Geom.MeshTopoProofs.
 From Coq Require Import Permutation.
 Local Open Scope Z_scope.
 
@@ -182,6 +182,20 @@ Qed.
 Example chain3_hypotheses_satisfiable :
   monotone 3 (fun i => Nat.leb 1 i) /\ length (filter (contains_sig (fun i => Nat.leb 1 i)) (chain_sigs 3)) = 1%nat.
 Proof. split; [intros k Hk; destruct k as [|[|[|k]]]; simpl; auto; lia | vm_compute; reflexivity]. Qed.
+
+(* --- orientation: with Gauss' law as a hypothesis on the solid-angle sign ("reversing every member mesh reverses the
+   sign"), the interface kept by the reader always has sign -1 (the library's outward convention), whatever the
+   winding in the files; an interface whose sign is neither +1 nor -1 is rejected *)
+Theorem interface_oriented_outward : forall (solid : list (Z * nat) -> Z),
+  (forall i, solid (map neg_om i) = - solid i) ->
+  forall i i', (solid i = 1 \/ solid i = -1) -> orient_iface (solid i) i = Some i' -> solid i' = -1.
+Proof. exact repaired_interface_sign. Qed.
+Print Assumptions interface_oriented_outward.
+
+Theorem unclosed_interface_is_rejected : forall (solid : list (Z * nat) -> Z) i,
+  solid i <> 1 -> solid i <> -1 -> orient_iface (solid i) i = None.
+Proof. exact unclosed_interface_rejected. Qed.
+Print Assumptions unclosed_interface_is_rejected.
 
 (* --- Geometry::save(.geom) (repaired): the Meshes section lists each mesh used by some domain exactly once *)
 Theorem saved_description_lists_every_mesh_once : forall g, NoDup (saved_meshes g)
